@@ -87,6 +87,11 @@ func (m *Mutex) Unlock() {
 		m.owner = nil
 		return
 	}
+	if vsched.UnlockPoints {
+		// the code under test uses TryLock somewhere: "the lock is held" is observable, so a thread
+		// can be preempted inside a critical section (just before it releases)
+		s.Yield(nil, "Unlock")
+	}
 	m.so.ReleaseReplace()
 	m.locked = false
 	if m.owner != nil {
